@@ -752,9 +752,7 @@ func bitPositions(operand interface{}) ([]uint, error) {
 			if !ok || n < 0 {
 				return nil, reject("bit position")
 			}
-			if n >= 64 {
-				return nil, outside("bit position >= 64")
-			}
+			// (positions beyond the width of a number are legal: numbers are sign-extended)
 			out = append(out, uint(n))
 		}
 		return out, nil
@@ -763,9 +761,6 @@ func bitPositions(operand interface{}) ([]uint, error) {
 		for bi, b := range m.Data {
 			for k := uint(0); k < 8; k++ {
 				if b&(1<<k) != 0 {
-					if uint(bi)*8+k >= 64 {
-						return nil, outside("bit position >= 64")
-					}
 					out = append(out, uint(bi)*8+k)
 				}
 			}
@@ -780,14 +775,15 @@ func bitsOf(v interface{}) (func(uint) bool, bool) {
 	case int32, int64:
 		n, _ := wholeNumber(x)
 		u := uint64(n)
-		return func(p uint) bool { return p < 64 && u&(1<<p) != 0 }, true
+		// numbers are sign-extended: every position beyond the 64th is set for a negative and clear for a positive one
+		return func(p uint) bool { return (p >= 64 && n < 0) || (p < 64 && u&(1<<p) != 0) }, true
 	case float64:
 		n, ok := wholeNumber(x)
 		if !ok || x >= 9.223372036854775807e18 || x < -9.223372036854775808e18 {
 			return nil, false
 		}
 		u := uint64(n)
-		return func(p uint) bool { return p < 64 && u&(1<<p) != 0 }, true
+		return func(p uint) bool { return (p >= 64 && n < 0) || (p < 64 && u&(1<<p) != 0) }, true
 	case primitive.Binary:
 		return func(p uint) bool {
 			i := p / 8
